@@ -616,3 +616,17 @@ pub fn h_c07_array_reading_a_later_spill() {
     check("C07.later_spill.second_evaluation_same", vals(&model) == first);
     reach("C07.later_spill");
 }
+
+/// text as a logical argument: a literal or computed text reading TRUE / FALSE counts, text coming from a cell
+/// reference is ignored (as the engine documents for AND / OR)
+const LOGICAL_TEXT: [(&str, bool); 6] = [("=AND(\"FAL\"&\"SE\",TRUE)", false), ("=OR(\"TR\"&\"UE\",FALSE)", true), ("=AND(\"true\",TRUE)", true),
+    ("=OR(\"false\",FALSE)", false), ("=AND(A1,TRUE)", true), ("=OR(A1,FALSE)", false)];
+pub fn h_c06_logical_text_arguments() {
+    let f = any_usize_to(LOGICAL_TEXT.len() - 1);
+    // A1 holds the text abc
+    let entered = model_with(3, 0.0, false, 2, 0.0, false, LOGICAL_TEXT[f].0);
+    check("C06.logical_text.entered", entered.is_some());
+    let model = match entered { Some(m) => m, None => return };
+    check("C06.logical_text.value", model.get_cell_value_by_index(0, 1, 3) == Ok(CellValue::Boolean(LOGICAL_TEXT[f].1)));
+    reach("C06.logical_text");
+}
